@@ -51,7 +51,7 @@ def _is_printable_code(c) -> bool:
   return _is_character_code(c) and c != 0x20
  
 def _is_control_code(c) -> bool:
-  return 0x00 <= c <= 0x07 or 0x0A <= c <= 0x0D or 0x1C <= c <= 0x1D or 0x80 <= c <= 0x85
+  return 0x00 <= c <= 0x1F or 0x80 <= c <= 0x85
 
 def _is_newline_code(c) -> bool:
   return c == 0x8A
@@ -217,6 +217,10 @@ def to_model(element: model.ContentElement, is_teletext: bool, tti_cct: bytes, t
 
   context = _Context(element, is_teletext, decode_func)
 
+  is_space_pending = False
+
+  is_line_started = False
+
   while True:
 
     c = tf_iter.cur()
@@ -225,8 +229,21 @@ def to_model(element: model.ContentElement, is_teletext: bool, tti_cct: bytes, t
       break
 
     if _is_character_code(c):
-      if _is_printable_code(c) or (_is_printable_code(tf_iter.peek_next()) and _is_printable_code(tf_iter.peek_prev())):
+      if _is_printable_code(c):
+
+        # runs of spaces and control codes between two characters of a line are rendered as a single space
+
+        if is_space_pending and is_line_started:
+          context.append_character(0x20)
+
         context.append_character(c)
+
+        is_space_pending = False
+        is_line_started = True
+
+      else:
+
+        is_space_pending = True
 
     elif _is_newline_code(c):
       if not _is_newline_code(tf_iter.peek_next()) and not _is_unused_space_code(tf_iter.peek_next()):
@@ -234,6 +251,9 @@ def to_model(element: model.ContentElement, is_teletext: bool, tti_cct: bytes, t
         element.push_child(model.Br(element.get_doc()))
         if is_teletext:
           context.reset_styles(is_teletext)
+
+      is_space_pending = False
+      is_line_started = False
 
     elif _is_control_code(c):
       context.end_span()
@@ -269,8 +289,7 @@ def to_model(element: model.ContentElement, is_teletext: bool, tti_cct: bytes, t
       elif c == 0x83:
         context.set_underline(False)
 
-      if (_is_printable_code(tf_iter.peek_next()) and _is_printable_code(tf_iter.peek_prev())):
-        context.append_character(0X20)
+      is_space_pending = True
 
     next(tf_iter)
 
